@@ -91,3 +91,62 @@ Definition log2_mean_ok (surv : list bin) (s : seg) : Prop :=
   exists v, s_log2 s = Some v /\
     ((0 < W)%Q -> (v == Qsum (map (fun b => b_log2 b * weight_of b) g) / W)%Q) /\
     ((W == 0)%Q -> (v == Qsum (map b_log2 g) / inject_Z (Z.of_nat (length g)))%Q).
+
+(* ---- chromosome arms (GenomicArray.by_arm) ----------------------------------- *)
+
+Section ArmSpec.
+Context {A : Type} (lo hi : A -> Z).
+
+(* the gap in front of row j (rows counted from 0): start[j] - end[j-1] *)
+Definition gap_before (l : list A) (j : Z) : Z :=
+  match nth_error l (Z.to_nat j), nth_error l (Z.to_nat (j - 1)) with
+  | Some b, Some a => lo b - hi a
+  | _, _ => 0
+  end.
+
+(* rows that keep the margin of m rows to both chromosome ends *)
+Definition interior (n m j : Z) : Prop := m + 1 <= j < n - m.
+
+(* r is the rounded 10 % share of the row count; the margin is max(50, r) *)
+Record arms_spec (r : Z) (l : list A) (arms : list (list A)) : Prop := {
+  as_partition : concat arms = l;                      (* the arms are the rows, in order *)
+  as_nonempty : Forall (fun a => a <> []) arms;
+  as_at_most_two : (length arms <= 2)%nat;
+  as_split_iff :
+    length arms = 2%nat <->
+    exists j, interior (Z.of_nat (length l)) (Z.max 50 r) j /\ 100000 <= gap_before l j;
+  as_where : forall p q, arms = [p; q] ->
+    let j := Z.of_nat (length p) in
+    let n := Z.of_nat (length l) in
+    let m := Z.max 50 r in
+    interior n m j /\ 100000 <= gap_before l j /\
+    (forall i, interior n m i -> gap_before l i <= gap_before l j) /\      (* the largest interior gap *)
+    (forall i, interior n m i -> i < j -> gap_before l i < gap_before l j)   (* the first one, if tied *) }.
+
+End ArmSpec.
+
+(* what a correctly rounded 10 % share is: within one half of n/10 *)
+Definition share_ok (n r : Z) : Prop := 2 * Z.abs (10 * r - n) <= 10.
+
+(* ---- rows re-split on allele frequencies (`variants=`) ------------------------- *)
+
+(* rows that tile [lo, hi) exactly: the first starts at lo, each starts where its
+   predecessor ends, all have positive length, the last ends at hi *)
+Fixpoint chain (lo : Z) (rows : list raw) (hi : Z) : Prop :=
+  match rows with
+  | [] => lo = hi
+  | r :: t => w_lo r = lo /\ w_lo r < w_hi r /\ chain (w_hi r) t hi
+  end.
+
+(* what becomes of one row w of the segmentation method: rows tiling w's own range, all
+   with w's log2; either w itself, or one row per allele-frequency run (>= 2 runs), whose
+   `probes` is the number of variants of that run *)
+Definition resplit_of (w : raw) (run_counts : list Z) (part : list raw) : Prop :=
+  chain (w_lo w) part (w_hi w) /\
+  Forall (fun r => w_log2 r = w_log2 w) part /\
+  (part = [w] \/ ((2 <= length part)%nat /\ map w_probes part = run_counts)).
+
+(* gene / weight / depth of a reported row s against ALL input bins it overlaps -- fields_ok
+   -- and the reported row's other columns taken over from the raw row w *)
+Definition carries (w : raw) (s : seg) : Prop :=
+  s_lo s = w_lo w /\ s_hi s = w_hi w /\ s_probes s = w_probes w /\ s_log2 s = w_log2 w.
